@@ -24,6 +24,7 @@ TStep ==
      \/ Ev.ev = "refused" /\ Refused
      \/ Ev.ev = "state" /\ StateCb(Ev.online, Ev.state)
      \/ Ev.ev = "ret" /\ Ev.kind \in {"reply", "secop"} /\ RetReply(Ev.i, Ev.gid)
+     \/ Ev.ev = "ret" /\ Ev.kind \in {"reply", "secop"} /\ RetLateReply(Ev.i, Ev.gid)
      \/ Ev.ev = "ret" /\ Ev.kind = "timeout" /\ RetTimeout(Ev.i, Ev.dt)
      \/ Ev.ev = "ret" /\ Ev.kind = "connerr" /\ RetConnErr(Ev.i)
      \* a caller arriving after the loss: its reconnect attempt is refused (communication error, no request sent)
